@@ -230,6 +230,15 @@ def annotations_of(sig, evaluated):
     return out
 
 
+def raw_annotations(sig):
+    """{name: raw annotation or EMPTY} incl. 'return' -- what plain inspect users see."""
+    out = {}
+    for p in sig.parameters.values():
+        out[p.name] = EMPTY if p.annotation is p.empty else p.annotation
+    out['return'] = EMPTY if sig.return_annotation is sig.empty else sig.return_annotation
+    return out
+
+
 def show(d):
     return dict((k, '-' if v is EMPTY else getattr(v, '__name__', repr(v))) for k, v in d.items())
 
@@ -274,7 +283,21 @@ def check_case(case, stats):
         if eerr is not None:
             stats.cls('both-raise')
             return
-        want = annotations_of(E, evaluated=False)
+        want = raw_annotations(E)
+        # raw and upgraded annotations of one result tell the same story
+        for label, sig in (('eager twins', E), ('flagged functions', P)):
+            try:
+                up = annotations_of(sig, evaluated=False)
+            except Exception as e:
+                stats.fail('C11/%s/evaluation-raised-%s' % (case['op'], type(e).__name__), case, '%s -> %s (%s): source_value() raised %s: %s' % (desc, sig, label, type(e).__name__, e))
+                return
+            raw = raw_annotations(sig)
+            stale = [k for k in up if (up[k] is EMPTY) != (raw[k] is EMPTY)]
+            if stale:
+                stats.fail('C11/%s/raw-vs-upgraded' % case['op'], case,
+                           '%s -> %s (%s): %s carries %s raw annotation but its upgraded annotation %s' % (
+                               desc, sig, label, stale, 'no' if raw[stale[0]] is EMPTY else 'a', 'resolves to %r' % (up[stale[0]],) if up[stale[0]] is not EMPTY else 'is empty'))
+                return
         for how in (False, True):
             try:
                 got = annotations_of(P, evaluated=how)
@@ -312,6 +335,26 @@ def check_case(case, stats):
                     stats.fail('C11/%s/ground-truth' % case['op'], case, '%s -> %s: annotation of %r resolves to %s, its spelling %r denotes %s in the defining globals' % (
                         desc, P, name, show({name: v})[name], sp, show({name: exp})[name]))
                     return
+        # late binding: a name rebound after the signature was computed is what evaluation sees (PEP 563 postpones
+        # evaluation; nothing may be captured at retrieval time).  All bindings are rotated uniformly, so agreements
+        # and conflicts stay what they were when the functions were combined.
+        if all(case['flags']):
+            rot = {id(OBJS[0]): OBJS[1], id(OBJS[1]): OBJS[2], id(OBJS[2]): OBJS[0]}
+            turn = lambda v: rot.get(id(v), v)
+            for env in penvs:
+                for sp in SPELL:
+                    env[sp] = turn(env[sp])
+            try:
+                late = annotations_of(P, evaluated=True)
+            except Exception as e:
+                stats.fail('C11/%s/late-binding-raised-%s' % (case['op'], type(e).__name__), case, '%s -> %s: after rebinding the spellings evaluated() raised %s: %s' % (desc, P, type(e).__name__, e))
+                return
+            want_late = dict((k, turn(v)) for k, v in want.items())
+            if any(late[k] is not want_late[k] for k in late):
+                stats.fail('C11/%s/late-binding' % case['op'], case,
+                           '%s -> %s: after every spelling was rebound in the functions\' globals, evaluated() gives %r, expected %r' % (desc, P, show(late), show(want_late)))
+                return
+            stats.cls('late-binding-checked')
         survived = any(v is not EMPTY for v in want.values())
         if survived and any(case['flags']) and case['envmode'] != 'shared':
             stats.nontriv((case['op'], desc))
@@ -337,7 +380,8 @@ def check_annotate(case, stats):
         vals = {}
         for name, vi in zip(named, case['extra']['annvals']):
             if vi < 3:
-                vals[name] = [OBJS[vi], ('tuple', vi), 'a string'][vi % 3] if case['extra']['pick'] % 2 else OBJS[vi]
+                # plain objects, and strings -- also strings that spell a global of the function, or nothing at all
+                vals[name] = [OBJS[vi], 'X', 'not a name'][vi % 3] if case['extra']['pick'] % 2 else OBJS[vi]
         ret = case['extra']['annret']
         args = () if ret is None else (OBJS[ret],)
         desc = 'annotate(%s%s) on [%s] %s' % (', '.join(repr(a) for a in args) + (', ' if args else ''), ', '.join('%s=%r' % kv for kv in vals.items()),
@@ -355,7 +399,12 @@ def check_annotate(case, stats):
         stats.cls('annotate/%s' % ('postponed' if case['flags'][0] else 'eager'))
         env = envs[0]
         for how in (False, True):
-            got = annotations_of(R, evaluated=how)
+            try:
+                got = annotations_of(R, evaluated=how)
+            except Exception as e:
+                stats.fail('C11/annotate/evaluation-raised-%s' % type(e).__name__, case,
+                           '%s -> %s: %s raised %s: %s' % (desc, R, 'evaluated()' if how else 'source_value()', type(e).__name__, e))
+                return
             for p in f['spec']:
                 name = p[0]
                 exp = vals[name] if name in vals else (EMPTY if p[3] is None else env[p[3]])
